@@ -450,6 +450,11 @@ structure Store where
   aggs : List (String × AggDecl) := []
   deriving Repr, Inhabited, DecidableEq
 
+/-- `read_field` / `write_field` on a struct: the field whose name equals `f` ignoring (ASCII)
+case — identifiers are case-insensitive; the value lives under the DECLARED spelling. -/
+def findFld (fields : List (String × Ty)) (f : String) : Option (String × Ty) :=
+  fields.find? fun q => q.1.toUpper = f.toUpper
+
 def elemName (a : String) (n : Int) : String := a ++ "[" ++ toString n ++ "]"
 def fldName (s f : String) : String := s ++ "." ++ f
 
@@ -522,11 +527,11 @@ def evalExpr (cfg : Cfg) (σ : Store) : Expr → M Val
       let _ ← readName σ a
       fault .TypeMismatch .indexOfNonArray
   | .fld s f =>
-    -- `read_field` on a struct value (field names compared as written: **case-sensitive**)
+    -- `read_field` on a struct value (field names compared ignoring case)
     match σ.aggs.lookup s with
     | some (.str _ fields) =>
-      match fields.lookup f with
-      | some _ => readSlot σ (fldName s f)
+      match findFld fields f with
+      | some (g, _) => readSlot σ (fldName s g)
       | none => fault .UndefinedField .fieldName
     | some (.arr _ _ _) => fault .TypeMismatch .fieldOfNonStruct
     | none => do
@@ -717,9 +722,9 @@ def execStmt (cfg : Cfg) : Nat → Nat → Store → Stmt → Res
       | .ok v =>
         match σ.aggs.lookup s with
         | some (.str _ fields) =>
-          match fields.lookup f with
-          | some _ =>
-            match writeSlot cfg σ (fldName s f) v with
+          match findFld fields f with
+          | some (g, _) =>
+            match writeSlot cfg σ (fldName s g) v with
             | (σ', none) => (σ', .ok .cont)
             | (σ', some st) => (σ', .error st)
           | none => (σ, fault .UndefinedField .fieldName)
